@@ -91,7 +91,7 @@ DEST = [
     ("handlePositiveAck", "R", "handlePositiveAckProcedures env r", ["handlePositiveAckProcedures"],
      ["getP", "declareFault", "resendFinished", "HR"]),
     ("handleWaitingFinAck", "RP", "handleWaitingForFinishedAck env p r", ["handleWaitingForFinishedAck"],
-     ["resetInternal", "handlePositiveAck:R"]),
+     ["resetInternal", "prepareEofAckPacket", "handlePositiveAck:R"]),
     ("fsmFromWaitingForFinishedAck", "RP", "fsmFromWaitingForFinishedAck env p r", ["fsmFromWaitingForFinishedAck"],
      ["handleWaitingFinAck:R"]),
     ("fsmFromSendingFinishedPdu", "RP", "fsmFromSendingFinishedPdu env p r", ["fsmFromSendingFinishedPdu"],
@@ -99,7 +99,7 @@ DEST = [
     ("fsmFromTransferCompletion", "RP", "fsmFromTransferCompletion env p r", ["fsmFromTransferCompletion"],
      ["handleTransferCompletion", "fsmFromSendingFinishedPdu:R"]),
     ("fsmFromWaitingForMissingData", "RP", "fsmFromWaitingForMissingData env p r", ["fsmFromWaitingForMissingData"],
-     ["handleFdPdu", "getP", "resetNak", "deferred", "fsmFromTransferCompletion:R"]),
+     ["handleFdPdu", "getP", "resetNak", "prepareEofAckPacket", "deferred", "fsmFromTransferCompletion:R"]),
     ("fsmFromCheckLimit", "RP", "fsmFromCheckLimit env p r", ["fsmFromCheckLimit"],
      ["checkLimitHandling", "fsmFromWaitingForMissingData:R"]),
     ("fsmFromWaitingForMetadata", "RP", "fsmFromWaitingForMetadata env p r", ["fsmFromWaitingForMetadata"],
